@@ -28,7 +28,9 @@ func failCfg(msgs bool) *go2coq.Config {
 			"os":     "package os\nfunc Getenv(key string) string\nfunc Setenv(key, value string) error\n",
 			"time":   "package time\ntype Duration int64\n",
 		},
-		Lib:        map[string]go2coq.LibFunc{"errors.New": {IsError: true}},
+		Lib: map[string]go2coq.LibFunc{"errors.New": {IsError: true},
+			"(*" + failPkg + ".M).Lookup": {Coq: "t_Lookup", MayFail: true},
+			"(*" + failPkg + ".M).Must":   {Coq: "t_Must", MayFail: true}},
 		Int64Arith: true,
 		FailMsgs:   msgs,
 		InputVars:  []string{"Loud"},
@@ -43,6 +45,7 @@ func failCfg(msgs bool) *go2coq.Config {
 		Segments: []go2coq.Segment{
 			{Func: "M.Run", Name: "mid", After: "os.Getenv", Before: "os.Setenv"},
 			{Func: "Make", Name: "lit", After: "os.Getenv", Before: "os.Setenv"},
+			{Func: "M.Walk", Name: "all", After: "os.Getenv", Before: "os.Setenv"},
 		},
 	}
 }
@@ -50,7 +53,7 @@ func failCfg(msgs bool) *go2coq.Config {
 const failPreamble = `From Coq Require Import List ZArith NArith Bool.
 From Coq.Strings Require Import Byte.
 Import ListNotations.
-From GI Require Import Lib.Bytes Lib.GoSem Lib.GoSemSeg Lib.GoSemState Lib.GoSemInt64 Lib.GoSemFail.
+From GI Require Import Lib.Bytes Lib.GoSem Lib.GoSemExt Lib.GoSemSeg Lib.GoSemState Lib.GoSemInt64 Lib.GoSemFail.
 Import GoNotations.
 Local Open Scope go_scope.
 Local Open Scope Z_scope.
@@ -59,6 +62,14 @@ Definition t_mkM (o : bool * Z) (g : Z) (n : bytes) : (bool * Z) * Z * bytes := 
 Definition t_opts (m : (bool * Z) * Z * bytes) := fst (fst m).
 Definition t_grace (m : (bool * Z) * Z * bytes) := snd (fst m).
 Definition t_name (m : (bool * Z) * Z * bytes) := snd m.
+(* the methods Lookup and Must of M, as the Go functions of internal/synthfail compute *)
+Definition t_Lookup (m : (bool * Z) * Z * bytes) (k : bytes) : res (exitm (Z * bool)) :=
+  match k with
+  | [] => Ok (DoneM (0, false))
+  | c :: _ => if beq c x21 then Ok (FailedM [x62; x61; x64; x20; x6b; x65; x79; x20; x25; x71]) else Ok (DoneM (len k, true))
+  end.
+Definition t_Must (m : (bool * Z) * Z * bytes) (k : bytes) : res (exitm unit) :=
+  match k with [] => Ok (FailedM [x65; x6d; x70; x74; x79; x20; x6b; x65; x79]) | _ => Ok (DoneM tt) end.
 
 `
 
@@ -84,7 +95,9 @@ func TestInt64FailAgainstGo(t *testing.T) {
 		t.Fatal(err)
 	}
 	fset2, f2 := parseFail(t, string(src))
-	plain, err := go2coq.Translate(fset2, []*ast.File{f2}, failPkg, failCfg(false))
+	pcfg := failCfg(false)
+	pcfg.Segments = pcfg.Segments[:2]
+	plain, err := go2coq.Translate(fset2, []*ast.File{f2}, failPkg, pcfg)
 	if err != nil {
 		t.Fatal(err)
 	}
@@ -153,6 +166,27 @@ func TestInt64FailAgainstGo(t *testing.T) {
 		add("f_Make_lit "+coqBytes([]byte("nm"))+" "+coqZ64(g),
 			fmt.Sprintf("Ok (Normal (t_mkM (%v, 0) %s %s))", m.Keep(), coqZ64(int64(m.Grace())), coqBytes([]byte(m.Name()))))
 	}
+	for _, keys := range [][]string{{}, {"a"}, {"ab", "c"}, {"ab", "", "c"}, {"a", "!x", "b"}, {"!"}, {"abc", ""}, {"", ""}} {
+		m := synthfail.NewM(false, 0)
+		os.Unsetenv("SYNTHFAIL_B")
+		var got int
+		failed := synthfail.Caught(func() { got = m.Walk(keys) })
+		_, after := os.LookupEnv("SYNTHFAIL_B")
+		if failed == after {
+			t.Fatalf("Walk(%q): failed = %v but the effect after the segment ran = %v", keys, failed, after)
+		}
+		var parts []string
+		for _, k := range keys {
+			parts = append(parts, coqBytes([]byte(k)))
+		}
+		call := fmt.Sprintf("f_M_Walk_all 10 %s [%s]", mval(false, 0), strings.Join(parts, "; "))
+		if failed {
+			ex = append(ex, fmt.Sprintf("(match %s with Ok (Return (FailedM _)) => true | _ => false end) = true", call))
+		} else {
+			ex = append(ex, fmt.Sprintf("(match %s with Ok (Normal (_, t)) => Some t | _ => None end) = Some %s", call, coqZ(got)))
+		}
+	}
+	add("f_M_Walk_all 1 "+mval(false, 0)+" ["+coqBytes([]byte("a"))+"; "+coqBytes([]byte("b"))+"]", "OutOfFuel")
 	if !strings.Contains(plain.Text, "Ok (Return Failed)") || strings.Contains(plain.Text, "FailedM") {
 		t.Error("without FailMsgs a no-return call inside a segment is not Return Failed")
 	}
@@ -224,6 +258,8 @@ func TestInt64FailRejects(t *testing.T) {
 		{"input-not-listed", "func (m *M) F() int { os.Getenv(\"A\"); k := Count; os.Setenv(\"B\", \"\"); return k }", "", nil},
 		{"lit-effect", "func (m *M) F(f func() map[string]bool) *M { os.Getenv(\"A\"); x := &M{name: \"a\", seen: f()}; os.Setenv(\"B\", \"\"); return x }", "does not denote", nil},
 		{"lit-unkeyed", "func (m *M) F() Opts { os.Getenv(\"A\"); x := Opts{true, 1, nil}; os.Setenv(\"B\", \"\"); return x }", "without a key", nil},
+		{"mayfail-noflag", "func (m *M) Lookup(k string) (int, bool) { return 0, false }\nfunc (m *M) F() int { os.Getenv(\"A\"); v, _ := m.Lookup(\"a\"); w := v + 1; os.Setenv(\"B\", \"\"); return w }", "without Config.FailMsgs", func(c *go2coq.Config) { c.FailMsgs = false }},
+		{"mayfail-nested", "func (m *M) One(k string) int { return 1 }\nfunc (m *M) F() int { os.Getenv(\"A\"); w := m.One(\"a\") + 1; os.Setenv(\"B\", \"\"); return w }", "inside an expression", func(c *go2coq.Config) { c.Lib["(*"+failPkg+".M).One"] = go2coq.LibFunc{Coq: "t_One", MayFail: true} }},
 		{"lit-escape", "func (m *M) F(g func(*M)) { os.Getenv(\"A\"); g(&M{name: \"a\"}); os.Setenv(\"B\", \"\") }", "", nil},
 	}
 	for _, c := range cases {
